@@ -170,4 +170,256 @@ def units(prop):
         Unit(f'{prop}.guess_type[bool]', UTILS_PY, 'guess_type', guess_setup(BOOL), guess_post(prop, 'bool'), prop=prop),
         main_order(prop),
         parser_for_backend_unit(prop),
+        apply_known_unit(prop),
+        main_load_unit(prop),
     ]
+
+
+# ------------------------------------------------------------------ config.Config.apply_known: the option table of the file
+CONFIG_PY = 'replicat/utils/config.py'
+# documented option -> (field it sets, converter applied to the file's value); README "Configuration file"
+OPTION_TABLE = [
+    ('repository', 'repository', 'parse_repository'), ('concurrent', 'concurrent', '_check_natural_number'),
+    ('hide-progress', 'quiet', '_check_boolean'), ('cache-directory', 'cache_directory', 'Path'),
+    ('password', 'password', 'str.encode'), ('password-file', 'password', '_read_bytes'),
+    ('key', 'key', 'str.encode'), ('key-file', 'key', '_read_bytes'), ('log-level', 'log_level', '_convert_log_level'),
+]
+EXCLUSIVE = [('key', 'key-file'), ('password', 'password-file')]
+
+
+def apply_known_setup(b):
+    from vf.sym import Dict
+    DC = sym.DictC(STR, ANY)
+    mapping = b.ref('mapping', DC)
+    b.mapping = mapping
+    me = Obj('self')
+    me._class_source = (CONFIG_PY, 'Config')        # popset / _validate_set: the real methods, inlined
+    me._settable = ('repository', 'quiet', 'concurrent', 'cache_directory', 'password', 'key', 'log_level')
+    b.bind('self', me)
+    b.me = me
+    has = lambda k: z3.Select(b.st.heap.read(DC, 'has', mapping.z), z3.StringVal(k))
+    b.has0 = {k: has(k) for k, _, _ in OPTION_TABLE}
+    b.has0['no-cache'] = has('no-cache')
+    b.val0 = {k: z3.Select(b.st.heap.read(DC, 'val', mapping.z), z3.StringVal(k)) for k in list(b.has0)}
+    b.has_arr0, b.val_arr0 = b.st.heap.read(DC, 'has', mapping.z), b.st.heap.read(DC, 'val', mapping.z)
+
+    def conv(name):
+        def m(interp, st, args, kwargs):
+            # (a converter may also reject the value with ValueError: that path ends the call and carries no obligation)
+            v = sym.lift(args[-1], ANY)
+            st.emit('converted', name=name, arg=v)
+            yield st, SV(ANY, UF('conv_' + name.replace('.', '_'), ANY, ANY)(v.z))
+        return Model(name, m)
+
+    b.conv = {}
+    for _, _, c in OPTION_TABLE:
+        if c not in b.conv:
+            b.conv[c] = conv(c)
+    for c, mdl in b.conv.items():
+        if '.' not in c:
+            b.bind(c, mdl)
+    b.bind('str', Obj('str', encode=b.conv['str.encode']))
+
+    def check_bool(interp, st, args, kwargs):
+        v = args[0]
+        if v is False:
+            st.emit('no_cache_absent')
+            yield st, False
+            return
+        r = SV(BOOL, UF('as_boolean', ANY, BOOL)(sym.lift(v, ANY).z))
+        st.emit('checked_boolean', arg=v)
+        yield st, r
+
+    b.bind('_check_boolean', Model('_check_boolean', lambda i, s, a, k: (check_bool(i, s, a, k) if not (a and isinstance(a[0], SV) and False) else None)))
+    b.hide = conv('_check_boolean')
+
+    def excl(interp, st, args, kwargs):
+        keys = tuple(args[1:])
+        st.emit('exclusive_check', mapping=args[0], keys=keys)
+        both = z3.And(*[b.has0[k] for k in keys]) if all(isinstance(k, str) and k in b.has0 for k in keys) else z3.BoolVal(False)
+        for s, conflict in interp.branch(st, both):
+            if conflict:
+                yield s, Raised(Exc('InvalidConfig'))
+            else:
+                yield s, None
+
+    b.bind('_check_mutually_exclusive', Model('_check_mutually_exclusive', excl))
+
+
+def apply_known_post(prop):
+    def post(res):
+        b = res.builder
+        DC = sym.DictC(STR, ANY)
+        n_ret = 0
+        for p in res.paths:
+            evs = p.st.events
+            ex = [e for e in evs if e.kind == 'exclusive_check']
+            sets = [e for e in evs if e.kind == 'setattr']
+            first_set = evs.index(sets[0]) if sets else len(evs)
+            done = {e.data['keys'] for e in ex if evs.index(e) < first_set and e.data['mapping'] is b.st.lookup('mapping')}
+            if sets or p.kind == 'return':
+                # both "cannot be used together" pairs are checked on the caller's mapping before anything is applied
+                res.oblige(p, f'{prop}.apply_known.exclusive_pairs_checked_first', z3.BoolVal(all(pair in done for pair in EXCLUSIVE)))
+            if p.kind != 'return':
+                continue
+            n_ret += 1
+            cj_present, cj_absent = [], []
+            for key, field, cname in OPTION_TABLE:
+                want = UF('conv_' + cname.replace('.', '_'), ANY, ANY)(b.val0[key])
+                fsets = [e for e in sets if e.data['name'] == field]
+                if key == 'hide-progress':
+                    hit = z3.BoolVal(bool(fsets))
+                elif field == 'cache_directory':
+                    hit = z3.Or(*[sym.lift(e.data['value'], ANY).z == want for e in fsets if isinstance(e.data['value'], SV)]) if fsets else z3.BoolVal(False)
+                else:
+                    hit = (sym.lift(fsets[-1].data['value'], ANY).z == want) if fsets and isinstance(fsets[-1].data['value'], SV) else z3.BoolVal(False)
+                # an option present in the file sets ITS field to ITS converter applied to the file's value
+                cj_present.append(z3.Implies(b.has0[key], hit))
+                alternatives = [k2 for k2, f2, _ in OPTION_TABLE if f2 == field and k2 != key]
+                if not alternatives and field != 'cache_directory':
+                    # ... and an absent option leaves its field alone
+                    cj_absent.append(z3.Implies(z3.Not(b.has0[key]), z3.BoolVal(not fsets)))
+            for a, c in EXCLUSIVE:
+                field = [f for k, f, _ in OPTION_TABLE if k == a][0]
+                cj_absent.append(z3.Implies(z3.And(z3.Not(b.has0[a]), z3.Not(b.has0[c])), z3.BoolVal(not [e for e in sets if e.data['name'] == field])))
+            res.oblige(p, f'{prop}.apply_known.present_option_sets_its_field_through_its_converter', z3.And(*cj_present))
+            res.oblige(p, f'{prop}.apply_known.absent_option_leaves_its_field', z3.And(*cj_absent))
+            # no-cache (true) switches the cache off whatever cache-directory says; absent / false leaves it
+            cd_sets = [e for e in sets if e.data['name'] == 'cache_directory']
+            on = z3.And(b.has0['no-cache'], UF('as_boolean', ANY, BOOL)(b.val0['no-cache']))
+            off_last = bool(cd_sets) and cd_sets[-1].data['value'] is None
+            res.oblige(p, f'{prop}.apply_known.no_cache_switches_the_cache_off', z3.And(
+                z3.Implies(on, z3.BoolVal(off_last)), z3.Implies(z3.Not(on), z3.BoolVal(not any(e.data['value'] is None for e in cd_sets)))))
+            # what is returned: the mapping without the options that were consumed (the backend options stay for the backend config)
+            r = p.value
+            okr = isinstance(r, SV) and r.ty == sym.Dict(STR, ANY) and not z3.eq(r.z, b.mapping.z)
+            res.oblige(p, f'{prop}.apply_known.returns_a_copy', z3.BoolVal(bool(okr)))
+            if okr:
+                h = p.st.heap
+                k = z3.String('ak_k')
+                known = z3.Or(*[k == z3.StringVal(x) for x in list(b.has0)])
+                res.oblige(p, f'{prop}.apply_known.remaining_is_the_rest', z3.ForAll([k], z3.And(
+                    z3.Implies(known, z3.Not(z3.Select(h.read(DC, 'has', r.z), k))),
+                    z3.Implies(z3.Not(known), z3.And(z3.Select(h.read(DC, 'has', r.z), k) == z3.Select(b.has_arr0, k),
+                                                    z3.Implies(z3.Select(b.has_arr0, k), z3.Select(h.read(DC, 'val', r.z), k) == z3.Select(b.val_arr0, k)))))))
+                # the caller's mapping is not modified
+                res.oblige(p, f'{prop}.apply_known.callers_mapping_untouched', z3.And(
+                    h.read(DC, 'has', b.mapping.z) == b.has_arr0, h.read(DC, 'val', b.mapping.z) == b.val_arr0))
+        res.oblige([], f'{prop}.apply_known.paths_checked', z3.BoolVal(n_ret >= 4))
+    return post
+
+
+def apply_known_unit(prop):
+    return Unit(f'{prop}.config_apply_known', CONFIG_PY, 'Config.apply_known', apply_known_setup, apply_known_post(prop), prop=prop)
+
+
+# ------------------------------------------------------------------ main(): loading the file options (what may be skipped silently)
+def _assign_to(name):
+    def pred(stmt):
+        if not isinstance(stmt, ast.Assign):
+            return False
+        for t in stmt.targets:
+            if isinstance(t, ast.Name) and t.id == name:
+                return True
+            if isinstance(t, ast.Tuple) and any(isinstance(e, ast.Name) and e.id == name for e in t.elts):
+                return True
+        return False
+    return pred
+
+
+PATHV = models.opaque_type('ConfigPath')
+PATHV.identity = True
+FILEOPTS = models.opaque_type('FileOptions')
+REMAINING = models.opaque_type('RemainingOptions')
+
+
+def main_load_setup(b):
+    cf = sym.const(Opt(PATHV), 'configuration_file')
+    default_path = sym.const(PATHV, 'DEFAULT_CONFIG_PATH')
+    b.cf, b.default_path = cf, default_path
+    args = Obj('args', configuration_file=cf, profile=sym.const(Opt(STR), 'profile'), verbose=sym.const(INT, 'verbose'),
+               repository=sym.const(Opt(ANY), 'cli_repository'))
+    args._settable = ()
+    b.bind('args', args)
+    b.args = args
+
+    def read_config(interp, st, args_, kwargs):
+        st.emit('read_config', args=list(args_), kwargs=dict(kwargs))
+        bad = st.copy()
+        bad.emit('read_config_missing')
+        yield bad, Raised(Exc('FileNotFoundError'))
+        bad2 = st.copy()
+        bad2.emit('read_config_invalid')
+        yield bad2, Raised(Exc('InvalidConfig'))
+        yield st, sym.const(FILEOPTS, 'file_options')
+
+    def apply_known(interp, st, args_, kwargs):
+        st.emit('apply_known', arg=args_[0] if args_ else None)
+        for cls in ('FileNotFoundError', 'ValueError', 'InvalidConfig'):     # a missing password/key file, a bad value, exclusive options
+            bad = st.copy()
+            bad.emit('apply_known_failed', cls=cls)
+            yield bad, Raised(Exc(cls))
+        yield st, sym.const(REMAINING, 'remaining')
+
+    def apply_env(interp, st, args_, kwargs):
+        st.emit('apply_env')
+        yield st, None
+
+    cfg = Obj('cfg', apply_known=Model('apply_known', apply_known), apply_env=Model('apply_env', apply_env), log_level=sym.const(INT, 'log_level'))
+    cfg._settable = ('repository',)
+    b.cfgobj = cfg
+    b.bind('config', Obj('config', Config=Model('Config', lambda i, s, a, k: iter([(s, cfg)])), read_config=Model('read_config', read_config),
+                         DEFAULT_CONFIG_PATH=default_path))
+    b.bind('logger', Obj('logger', **{n: Model(n, lambda i, s, a, k: iter([(s, None)])) for n in ('debug', 'info', 'warning', 'error')}))
+    b.bind('_configure_logging', Model('_configure_logging', lambda i, s, a, k: iter([(s, None)])))
+    b.bind('vars', Model('vars', lambda i, s, a, k: iter([(s, None)])))
+    from specs import shared
+    b.bind('exceptions', shared.EXCEPTIONS)
+
+
+def main_load_post(prop):
+    def post(res):
+        b = res.builder
+        cf = b.cf
+        is_default = z3.And(z3.Not(cf.ty.is_none(cf.z)), cf.ty.val(cf.z) == b.default_path.z)
+        n = {'skip': 0, 'fail': 0, 'ok': 0}
+        for p in res.paths:
+            kinds = [e.kind for e in p.st.events]
+            rc, ak = p.events('read_config'), p.events('apply_known')
+            sig = ','.join(k for k in kinds if k in ('read_config_missing', 'read_config_invalid', 'apply_known', 'apply_known_failed', 'apply_env')) + '->' + p.kind
+            # the file is consulted iff a configuration file is in effect, with the selected profile
+            res.oblige(p, f'{prop}.main_load.file_read_iff_configured[{sig}]', z3.If(cf.ty.is_none(cf.z), z3.BoolVal(not rc), z3.BoolVal(len(rc) == 1)))
+            for e in rc:
+                a, kw = e.data['args'], e.data['kwargs']
+                res.oblige(p.pc_at(e), f'{prop}.main_load.reads_the_selected_profile_of_that_file', z3.BoolVal(
+                    len(a) == 1 and a[0] is b.args.get('configuration_file') and kw.get('profile') is b.args.get('profile') and len(kw) == 1))
+            if 'read_config_missing' in kinds:
+                # ONLY a missing file at the default location is skipped silently; an explicitly named missing file fails
+                if p.kind != 'raise':
+                    n['skip'] += 1
+                    res.oblige(p, f'{prop}.main_load.only_a_missing_DEFAULT_file_is_skipped[{sig}]', is_default)
+                    res.oblige(p, f'{prop}.main_load.skipped_file_contributes_nothing[{sig}]', z3.BoolVal(not ak))
+                else:
+                    res.oblige(p, f'{prop}.main_load.explicit_missing_file_fails[{sig}]', z3.Not(is_default))
+            if 'read_config_invalid' in kinds:
+                res.oblige(p, f'{prop}.main_load.invalid_file_fails[{sig}]', z3.BoolVal(p.kind == 'raise'))
+            if 'apply_known_failed' in kinds:
+                n['fail'] += 1
+                # an option of the file that cannot be applied (missing password/key file, bad value, exclusive pair) is an
+                # error of the run - never "the configuration file does not exist"
+                res.oblige(p, f'{prop}.main_load.unusable_file_option_fails_the_run[{sig}]', z3.BoolVal(p.kind == 'raise'))
+            if rc and not any(k in kinds for k in ('read_config_missing', 'read_config_invalid')):
+                okk = len(ak) == 1 and isinstance(ak[0].data['arg'], SV) and ak[0].data['arg'].ty == FILEOPTS
+                res.oblige(p, f'{prop}.main_load.file_options_are_applied[{sig}]', z3.BoolVal(okk))
+            if p.kind != 'raise':
+                n['ok'] += 1
+                # environment after file (so it wins), once
+                res.oblige(p, f'{prop}.main_load.environment_applied_after_the_file[{sig}]', z3.BoolVal(
+                    kinds.count('apply_env') == 1 and (not ak or kinds.index('apply_known') < kinds.index('apply_env'))))
+        res.oblige([], f'{prop}.main_load.paths_checked', z3.BoolVal(n['skip'] >= 1 and n['fail'] >= 3 and n['ok'] >= 2))
+    return post
+
+
+def main_load_unit(prop):
+    return Unit(f'{prop}.main_load_file_options', MAIN_PY, 'main', main_load_setup, main_load_post(prop),
+                stmt=(_assign_to('cfg'), _assign_to('backend_type')), prop=prop)
